@@ -24,10 +24,12 @@ class Edit:
 
 class Hole(Edit):
     """replace exact text `old` by `new` (a hole / wrapper call); listed in the evidence with sha256(old)"""
-    def __init__(self, old, new, count=1, why="", kind="hole"):
-        self.old, self.new, self.count, self.why, self.kind = old, new, count, why, kind
+    def __init__(self, old, new, count=1, why="", kind="hole", optional=False):
+        self.old, self.new, self.count, self.why, self.kind, self.optional = old, new, count, why, kind, optional
     def apply(self, text, ctx):
         n = text.count(self.old)
+        if n == 0 and self.optional:      # the text the hole stands for is not there: the function is verified as it is written
+            return text
         if n != self.count:
             raise ExtractError(f"{ctx}: hole anchor matched {n}x (want {self.count}): {self.old[:70]!r}")
         return text.replace(self.old, self.new)
